@@ -1,6 +1,9 @@
 (* Call/Step.v — CallableSchema.CallStep / CallSignal (schema/schema.go), CallableStepSchema.Call /
    CallSignal / setupStepData (schema/step.go) and CallableSignalSchema.Call (schema/signal.go),
-   path by path, at the repaired tree (D22: an unknown signal id is an error).
+   path by path, at the repaired tree (D22: an unknown signal id is an error; D65: step data that is
+   the NIL INTERFACE — StepData an interface type and no initialiser, or one returning nil — reaches
+   the signal handler as StepData's zero value, exactly like a typed nil pointer: `sdata = None`
+   stands for both Go representations, so the model does not distinguish them).
 
    The data layer is Schema/Ops.v: a step's input, each output and each signal's data schema is a
    `schema` (a scope).  The step handler is a Section variable: every theorem holds for every
@@ -135,6 +138,39 @@ Definition call_step (ps : pstate) (p : plugin) (run : runid) (sid : stepid) (ra
           end
       end
   end.
+
+(* CallableStepSchema.Call called DIRECTLY through the CallableStep interface (the way the SDK's own
+   step tests and embedding code use it): the input is a NATIVE value that never went through
+   Unserialize, so step.go's `InputValue.Validate(input)` is the only guard in front of the handler.
+   The triple (outputID, outputData, output.Validate(outputData)) is returned as it is: the data is
+   NOT serialized (that is CallableSchema.CallStep's last step). *)
+Definition check_output_direct (st : step_d) (oid : string) (odata : gval) : sres (string * gval) :=
+  match alookup oid (sd_outputs st) with
+  | None => SErr CEUndeclaredOutput
+  | Some os =>
+      match s_validate os odata with
+      | Err er => SErr (CEOutputData er)
+      | Panic w => SPanic w
+      | OutOfFuel => SFuel
+      | Ok _ => SOk (oid, odata)
+      end
+  end.
+
+Definition call_direct (ps : pstate) (p : plugin) (run : runid) (sid : stepid) (input : gval)
+  : sres (string * gval) * list log_entry * pstate :=
+  match alookup sid p with
+  | None => (SErr CENoSuchStep, [], ps)      (* no Go counterpart: the caller holds the step object *)
+  | Some st =>
+      match s_validate (sd_input st) input with
+      | Err er => (SErr (CEInvalidInput er), [], ps)
+      | Panic w => (SPanic w, [], ps)
+      | OutOfFuel => (SFuel, [], ps)
+      | Ok _ =>
+          let '(t', d) := setup_step_data (sd_has_init st) run (tab_of ps sid) in
+          let '(oid, odata) := handler sid input in
+          (check_output_direct st oid odata, [LStep sid run d input], tab_set sid t' ps)
+      end
+  end.
 End WithHandler.
 
 (* CallableSchema.CallSignal -> CallableStepSchema.CallSignal -> CallableSignalSchema.Call.
@@ -174,7 +210,8 @@ Definition call_signal_prefix := call_signal_gen (SPanic "nil pointer dereferenc
    handler for that call (any function) *)
 Inductive sop :=
 | OpCall (run : runid) (sid : stepid) (raw : gval) (h : stepid -> gval -> string * gval)
-| OpSignal (run : runid) (sid : stepid) (sig : string) (raw : gval).
+| OpSignal (run : runid) (sid : stepid) (sig : string) (raw : gval)
+| OpDirect (run : runid) (sid : stepid) (input : gval) (h : stepid -> gval -> string * gval).
 
 Inductive op_result := RCall (r : sres (string * gval)) | RSignal (r : sres unit).
 
@@ -182,6 +219,7 @@ Definition exec_op (p : plugin) (ps : pstate) (o : sop) : op_result * list log_e
   match o with
   | OpCall run sid raw h => let '(r, l, ps') := call_step h ps p run sid raw in (RCall r, l, ps')
   | OpSignal run sid sig raw => let '(r, l, ps') := call_signal ps p run sid sig raw in (RSignal r, l, ps')
+  | OpDirect run sid input h => let '(r, l, ps') := call_direct h ps p run sid input in (RCall r, l, ps')
   end.
 
 (* the state after a history, with the per-operation results and logs (in order) *)
